@@ -1,48 +1,203 @@
-"""C05 — products, transposes, minors, determinants (T-route + measured rounding residue)."""
+"""C05 — products, transposes, minors, determinants (T-route + measured rounding residue).
+
+Theorems (Props/C05.lean, all REQUIRED; every extraction entry must have its own theorem whose statement mentions the
+entry) over the definitions regenerated from the current headers.  Residue (harness/corr/c05_residue.cpp): EVERY
+extracted function is also run on the real code at float and double (the two-type Vec x Matrix templates additionally
+at Vec<float> x Matrix<double> and Vec<double> x Matrix<float>) against a __float128 evaluation, one row per
+(function, element types) with its own constant and its own recorded maximum."""
 import os, re
 import lib, troute
 
-IMPORTS = ["ImathVerif.Spec.MatSpec", "ImathVerif.Gen.C05"]
+IMPORTS = ["ImathVerif.Spec.MatSpec", "ImathVerif.Lemmas.C05", "ImathVerif.Gen.C05"]
+MODULE = "ImathVerif.Props.C05"
+
+_MINORS33 = ["M33_minorOf_%d_%d" % (r, c) for r in range(3) for c in range(3)]
+_MINORS44 = ["M44_minorOf_%d_%d" % (r, c) for r in range(4) for c in range(4)]
+_FM33 = ["01_12", "12_02", "21_20", "00_11", "20_02"]
+_FM44 = ["123_012", "013_123", "321_210", "002_133", "023_012", "013_012", "012_012"]
+REQUIRED = (
+    ["V2_dot", "V3_dot", "V4_dot", "V2_dotOp", "V3_dotOp", "V4_dotOp", "V2_length2", "V3_length2", "V4_length2",
+     "V2_cross", "V2_crossOp", "V2_cross_det", "V3_cross", "V3_crossOp", "V3_crossAssign", "V3_cross_mathlib",
+     "V3_cross_crossProduct", "V3_crossOp_crossProduct", "V3_crossAssign_crossProduct",
+     "Quat_mul", "Quat_mulAssign", "Quat_mul_hamilton", "Quat_mulAssign_hamilton", "Quat_euclideanInnerProduct",
+     "M22_mul", "M33_mul", "M44_mul", "M22_mulAssign", "M33_mulAssign", "M44_mulAssign", "M44_multiplyStatic", "M44_multiplyStatic3",
+     "Quat_mulAssignSelf", "M22_mulAssignSelf", "M33_mulAssignSelf", "M44_mulAssignSelf", "V3_crossAssignSelf",
+     "M44_multiplyStatic3AliasA", "M44_multiplyStatic3AliasB",
+     "M22_transposed", "M33_transposed", "M44_transposed", "M22_transpose", "M33_transpose", "M44_transpose",
+     "M22_trace", "M33_trace", "M44_trace", "M22_determinant", "M33_determinant", "M44_determinant",
+     "M22_det_mul", "M33_det_mul", "M44_det_mul", "M22_det_transpose", "M33_det_transpose", "M44_det_transpose",
+     "V2_mulM22", "V3_mulM33", "V4_mulM44", "V3_mulM44", "V2_mulM33", "M44_multDirMatrix", "M33_multDirMatrix", "M22_multDirMatrix",
+     "M44_multVecMatrix", "M33_multVecMatrix", "V2_mulAssignM22", "V2_mulAssignM33", "V3_mulAssignM33", "V3_mulAssignM44", "V4_mulAssignM44",
+     "M33_outerProduct", "M44_outerProduct", "fastMinor2_eq_det", "fastMinor3_eq_det", "M44_determinant_via_fastMinor"]
+    + _MINORS33 + _MINORS44
+    + ["M33_fastMinor_" + t for t in _FM33] + ["M33_fastMinor_%s_model" % t for t in _FM33]
+    + ["M44_fastMinor_" + t for t in _FM44] + ["M44_fastMinor_%s_model" % t for t in _FM44]
+    + ["M33_cofactor_%s%d" % (k, i) for k in ("row", "col") for i in range(3)]
+    + ["M44_cofactor_%s%d" % (k, i) for k in ("row", "col") for i in range(4)])
+
+# ---------------------------------------------------------------------------------------------------------------
+# residue rows that must be present: function -> element-type combinations
+_SAME = ["float", "double"]
+_MIXED = _SAME + ["float*double", "double*float"]
+_WIDE = ["float*double:vs-widened", "double*float:vs-widened"]          # mixed instantiation = wide same-type one rounded once
+RESIDUE_ROWS = {}
+for _v in ("V2", "V3", "V4"):
+    for _f in ("dot", "dotOp", "length2"):
+        RESIDUE_ROWS["%s.%s" % (_v, _f)] = _SAME
+for _f in ("V2.cross", "V2.crossOp", "V3.cross", "V3.crossOp", "V3.crossAssign", "V3.crossAssignSelf",
+           "Quat.mul.r", "Quat.mul.v", "Quat.mulAssign", "Quat.mulAssignSelf", "Quat.euclideanInnerProduct",
+           "M33.outerProduct", "M44.outerProduct", "M33.minorOf", "M44.minorOf", "M33.fastMinor", "M44.fastMinor",
+           "M44.multiplyStatic", "M44.multiplyStatic3", "M44.multiplyStatic3Alias"):
+    RESIDUE_ROWS[_f] = _SAME
+for _m in ("M22", "M33", "M44"):
+    for _f in ("mul", "mulAssign", "mulAssignSelf", "transpose", "transposed", "trace", "determinant"):
+        RESIDUE_ROWS["%s.%s" % (_m, _f)] = _SAME
+for _f in ("V2.mulM22", "V3.mulM33", "V4.mulM44", "V2.mulM33", "V3.mulM44", "M22.multDirMatrix", "M33.multDirMatrix", "M44.multDirMatrix"):
+    RESIDUE_ROWS[_f] = _MIXED + _WIDE
+for _f in ("V2.mulAssignM22", "V3.mulAssignM33", "V4.mulAssignM44", "V2.mulAssignM33", "V3.mulAssignM44", "M33.multVecMatrix", "M44.multVecMatrix"):
+    RESIDUE_ROWS[_f] = _MIXED
 
 
-def residue(chk, binary, n):
-    rc, out = lib.sh([binary, str(chk.seed), str(n)], timeout=1800)
-    m = re.search(r"RESIDUE evals=(\d+) lattice_exact=(\d+) failures=(\d+) worst_err_over_u_sumabs=([\d.]+) det44_zero_pattern_hits=(\S+)", out)
-    ok = rc == 0 and m is not None and int(m.group(3)) == 0
-    chk.oblige("residue: |impl - exact| <= (n+2)*u*sum|products|; exact on integer lattices", "residue", ok)
+def residue_family_of(entry):
+    """the residue row(s) that run the real code of extraction entry `entry`"""
+    if entry == "Quat.mul":
+        return ["Quat.mul.r", "Quat.mul.v"]
+    m = re.match(r"(M33|M44)\.(minorOf|fastMinor)_", entry)
     if m:
-        chk.count(int(m.group(1)), int(m.group(1)))
-        chk.residues["C05"] = {"evaluations": int(m.group(1)), "lattice_cases_required_exact": int(m.group(2)),
-                               "worst_error_in_units_of_u_times_sum_abs_products": float(m.group(4)),
-                               "bound": "(number of terms + 2) * u * sum|products|",
-                               "Matrix44::determinant zero-column patterns hit (bitmask of zero entries in column 3)": m.group(5)}
-    for l in [l for l in out.split("\n") if l.startswith("RESIDUE-FAIL")][:10]:
-        what = l.split()[1]
-        chk.fail("residue:" + what, "residue:" + what, "rounding residue / lattice exactness violated: " + l[:300], {"line": l}, True)
-    if not ok and "RESIDUE-FAIL" not in out:
+        return ["%s.%s" % (m.group(1), m.group(2))]
+    if entry.startswith("M44.multiplyStatic3Alias"):
+        return ["M44.multiplyStatic3Alias"]
+    return [entry]
+
+
+def residue(chk, binary, n, index):
+    rc, out = lib.sh([binary, str(chk.seed), str(n)], timeout=1800)
+    m = re.search(r"RESIDUE evals=(\d+) lattice_exact=(\d+) failures=(\d+) worst_frac=([\d.]+) w_zero_skipped=(\d+) "
+                  r"w_illconditioned_skipped=(\d+) fastminor33_tuples=(\d+) fastminor44_tuples=(\d+) affine_hits=(\d+),(\d+) "
+                  r"det44_zero_pattern_hits_float=(\S+) det44_zero_pattern_hits_double=(\S+)", out)
+    fams = {}
+    for fm in re.finditer(r"FAMILY (\S+) kind=(\S+) c=(\S+) evals=(\d+) lattice=(\d+) skipped=(\d+) fails=(\d+) worst_frac=(\S+)", out):
+        fams[fm.group(1)] = dict(kind=fm.group(2), c=float(fm.group(3)), evals=int(fm.group(4)), lattice=int(fm.group(5)),
+                                 skipped=int(fm.group(6)), fails=int(fm.group(7)), worst_frac=float(fm.group(8)))
+    ran = rc in (0, 1) and m is not None and bool(fams)
+    chk.oblige("residue: harness ran", "residue", ran, None if ran else out[-400:])
+    if not ran:
         chk.fail("residue", "residue:run", "residue harness failed to run", {"output": out[-2000:]}, False)
+        return
+    chk.count(int(m.group(1)), int(m.group(1)))
+    # one obligation per function: all its element-type rows present, evaluated, inside their own bound / exact / bitwise equal
+    summary = {}
+    for fn, types in sorted(RESIDUE_ROWS.items()):
+        rows = {t: fams.get(fn + ":" + t) for t in types}
+        missing = [t for t, r in rows.items() if not r or r["evals"] == 0]
+        lat_missing = [t for t, r in rows.items() if r and r["lattice"] == 0]
+        bad = [t for t, r in rows.items() if r and (r["fails"] or (r["kind"] == "bound" and not r["worst_frac"] <= 1.0))]
+        kind = next((r["kind"] for r in rows.values() if r), "?")
+        c = next((r["c"] for r in rows.values() if r), 0)
+        what = {"bound": "|impl - exact| <= %g*u*sum|terms| (+ one narrowing rounding when S is narrower), lattice exact" % c,
+                "exact": "equals the exactly computed result", "bitwise": "bitwise equal to the reference spelling / instantiation"}.get(kind, kind)
+        ok = not missing and not bad and not lat_missing
+        chk.oblige("residue:%s: %s [%s]" % (fn, what, ", ".join(types)), "residue", ok,
+                   None if ok else {"rows missing": missing, "rows without lattice cases": lat_missing, "rows failing": bad})
+        if missing or lat_missing:
+            chk.fail("residue:" + fn, "residue:%s:row-missing" % fn, "the residue harness no longer measures %s at %s" % (fn, missing or lat_missing),
+                     {"rows": rows}, False)
+        summary[fn] = {t: ({"evals": r["evals"], "kind": r["kind"], "c": r["c"], "worst_fraction_of_own_bound": r["worst_frac"],
+                            "worst_in_units_of_u_sum_abs_terms(same-type rows)": round(r["worst_frac"] * r["c"], 3)}
+                           if r and r["kind"] == "bound" else ({"evals": r["evals"], "kind": r["kind"]} if r else None)) for t, r in rows.items()}
+    extra_rows = sorted(k for k in fams if k.split(":")[0] not in RESIDUE_ROWS)
+    chk.oblige("residue: no unexpected rows", "residue", not extra_rows, extra_rows or None)
+    # W1 must not re-open: every extracted entry is run on the real code by some row
+    unmeasured = [d["name"] for d in index if any(f not in RESIDUE_ROWS for f in residue_family_of(d["name"]))]
+    chk.oblige("residue: every extraction entry (%d) has a residue row on the real code" % len(index), "residue", not unmeasured, unmeasured or None)
+    if unmeasured:
+        chk.fail("residue:coverage", "residue:unmeasured:" + unmeasured[0], "extraction entries without a residue row: %s" % unmeasured, {}, False)
+    # reach: zero-skipping branches of Matrix44::determinant, fastMinor index tuples, affine pattern
+    hf = [int(x) for x in m.group(11).strip(",").split(",")]
+    hd = [int(x) for x in m.group(12).strip(",").split(",")]
+    okp = len(hf) == 16 and len(hd) == 16 and all(x > 0 for x in hf + hd)
+    chk.oblige("residue: all 16 zero-patterns of Matrix44::determinant's last column hit (float and double)", "reach", okp,
+               {"float": hf, "double": hd})
+    if not okp:
+        chk.fail("residue:reach", "residue:det44-zero-patterns", "a zero-skipping path of Matrix44::determinant was never taken", {"float": hf, "double": hd}, False)
+    oka = int(m.group(9)) > 0 and int(m.group(10)) > 0
+    chk.oblige("residue: affine last column (0,0,0,1) forced (counted separately)", "reach", oka, {"float": int(m.group(9)), "double": int(m.group(10))})
+    okt = (int(m.group(7)), int(m.group(8))) == (81, 4096)
+    chk.oblige("residue: all 81 Matrix33 / 4096 Matrix44 fastMinor index tuples run (repeated and descending included)", "reach", okt,
+               {"M33": int(m.group(7)), "M44": int(m.group(8))})
+    if not okt:
+        chk.fail("residue:reach", "residue:fastMinor-tuples", "not every fastMinor index tuple was run", {"M33": m.group(7), "M44": m.group(8)}, False)
+    chk.residues["C05"] = {"evaluations": int(m.group(1)), "lattice_cases_required_exact": int(m.group(2)),
+                           "oracle": "__float128 (113-bit) evaluation of the textbook sums in C++, NOT proved",
+                           "bound": "per row: c*u*sum|terms| with c = terms+2 (sums), 4 (2x2 minors, cross), 3N+2 (NxN determinants, 3x3 minors), "
+                                    "(terms+2)*4/3 in units u*(sum|x-terms| + |x/w|*sum|w-terms|)/|w| + u|x/w| for the homogeneous divides; "
+                                    "+ u_S*|exact| when the result is narrowed to S (mixed rows: fraction ~1 is the half-ulp of that rounding)",
+                           "worst_fraction_of_own_bound_over_all_rows": float(m.group(4)),
+                           "homogeneous divide: cases skipped because w == 0 (outside the clause)": int(m.group(5)),
+                           "homogeneous divide: cases skipped because w lost its leading digits": int(m.group(6)),
+                           "Matrix44::determinant zero-column patterns hit (index = bitmask of zero entries in column 3)": {"float": hf, "double": hd},
+                           "affine pattern forced": {"float": int(m.group(9)), "double": int(m.group(10))},
+                           "rows": summary}
+    seen = set()
+    for l in [l for l in out.split("\n") if l.startswith("RESIDUE-FAIL")]:
+        what = l.split()[1]
+        if what in seen or len(seen) >= 60:
+            continue
+        seen.add(what)
+        chk.fail("residue:" + what.split(":")[0], "residue:" + what, "rounding residue / lattice exactness / spelling identity violated: " + l[:400],
+                 {"line": l, "replay_cmd": ".build/bin/c05_residue %d %d" % (chk.seed, n)}, True)
+
+
+def entry_theorems(chk, index):
+    """S2: every extraction entry has its own theorem (entry name with '.' -> '_') whose STATEMENT mentions Gen.<entry>."""
+    path = os.path.join(lib.LEAN, *MODULE.split(".")) + ".lean"
+    lines = lib.strip_lean_comments(open(path).read()).split("\n")
+    stmts = {}
+    for (n, s, e) in lib.theorems_in(path):
+        txt = "\n".join(lines[s - 1:e])
+        stmts[n] = re.split(r":=\s*(?:by\b|rfl\b)", txt)[0]          # the statement may itself contain `let h := …`
+    missing = []
+    for d in index:
+        tn = d["name"].replace(".", "_")
+        if tn not in stmts or not re.search(r"Gen\." + re.escape(d["name"]) + r"(?![A-Za-z0-9_])", stmts[tn]):
+            missing.append(d["name"])
+    chk.oblige("theorems: every extraction entry (%d) has its own theorem stating it" % len(index), "theorem", not missing, missing or None)
+    for n in missing[:10]:
+        chk.fail("theorem:" + n.replace(".", "_"), "missing:" + n.replace(".", "_"),
+                 "extraction entry %s has no theorem %s mentioning Gen.%s in its statement" % (n, n.replace(".", "_"), n), {}, False)
+    notreq = [n for n in stmts if n not in REQUIRED]
+    chk.oblige("theorems: REQUIRED lists every theorem of the file", "theorem", not notreq, notreq or None)
 
 
 def run(chk):
-    chk.trusted = ["Lean 4.33 kernel; axioms propext/Classical.choice/Quot.sound at most", "Mathlib's Matrix.mul/det/transpose/trace/vecMul",
-                   "translator harness/sym, validated each run by TV (bitwise at float and double)",
-                   "__float128 evaluation as the oracle of the measured rounding residue"]
-    chk.assumptions = ["rounding: NOT proved; measured against a 113-bit evaluation with the bound (terms+2)*u*sum|products| (partial)"]
-    chk.rule = ("theorems: all operands over any commutative ring/field. residue: integer lattice [-3,3] (exact equality), well-scaled, "
-                "sparse (takes the zero-skipping determinant branches; hit counts recorded), graded magnitudes; float and double")
+    chk.trusted = ["Lean 4.33 kernel; axioms propext/Classical.choice/Quot.sound at most",
+                   "Mathlib's Matrix.mul/det/transpose/trace/vecMul/submatrix, crossProduct, Quaternion multiplication",
+                   "translator harness/sym, validated each run by TV (bitwise at float and double, S = T instantiations only)",
+                   "__float128 evaluation as the oracle of the measured rounding residue; g++ -O1 -ffp-contract=off and the CPU"]
+    chk.assumptions = ["rounding: NOT proved; measured for every extracted function against a 113-bit evaluation with a per-row bound "
+                       "proportional to u*sum|products| (partial)",
+                       "the two-type templates Vec<S> x Matrix<T> are extracted at S = T only; S != T (float x double, double x float) is covered "
+                       "by measurement: bound rows + bitwise equality with the S = T instantiation at the wider type rounded once per component",
+                       "homogeneous divide: inputs with w == 0 are outside the clause and are skipped (counted)"]
+    chk.rule = ("theorems: all operands over any commutative ring/field. residue: integer lattice [-3,3] (exact equality; correctly rounded quotient "
+                "for the dividing forms), well-scaled (half of the 4x4 forced affine), sparse (every one of the 16 zero patterns of Matrix44's last "
+                "column forced in turn: hit counts are an obligation), graded magnitudes 2^-10..2^10; float, double and both mixed pairs; all 81/4096 "
+                "fastMinor index tuples cycled; every (r,c) of minorOf")
     bins = troute.build_extractors(chk, [dict(name="sym_c05", source="sym/sym_c05.cpp"),
                                          dict(name="c05_residue", source="corr/c05_residue.cpp")])
+    index = []
     if bins.get("sym_c05"):
         index, changed = troute.regenerate(chk, bins["sym_c05"], "c05")
         troute.tv(chk, bins["sym_c05"], "c05", 400 if chk.thorough else 64)
         troute.lean_tv(chk, bins["sym_c05"], "c05", index, n=8 if chk.thorough else 3)
 
         def search(name):
-            return troute.lean_search(chk, "ImathVerif.Props.C05", name, IMPORTS, ["ImathVerif", "Matrix"], binary=bins["sym_c05"])
-        chk.check_theorems("ImathVerif.Props.C05", search=search)
+            return troute.lean_search(chk, MODULE, name, IMPORTS, ["ImathVerif", "Matrix"], binary=bins["sym_c05"])
+        chk.check_theorems(MODULE, required=REQUIRED, search=search)
+        entry_theorems(chk, index)
         for d in index[:5]:
             chk.sample({"entry": d["name"], "paths": d.get("paths")})
     if bins.get("c05_residue"):
-        residue(chk, bins["c05_residue"], 200000 if chk.thorough else 20000)
+        residue(chk, bins["c05_residue"], 200000 if chk.thorough else 20000, index)
     if chk.thorough:
-        chk.leanchecker("ImathVerif.Props.C05")
+        chk.leanchecker(MODULE)
